@@ -284,6 +284,10 @@ def cases_for(tier, s):
     R += c01.randoms(12 if tier == "quick" else 300, s) + c02.randoms(18 if tier == "quick" else 450, s)
     ex = c04.cases_for(tier, s)
     R += ex[::4] if tier == "quick" else ex
+    # geometric quantities read coordinate_dofs directly (vertex / edge tables): every restriction, always in the pool
+    for cell in ("triangle", "tetrahedron", "hexahedron"):
+        for side in ("-", "mix"):
+            R.append({"recipe": {"b": "geom_all", "cell": cell, "p": {"itype": "interior_facet", "side": side}}})
     # options that change the loop structure
     for cell in ("quadrilateral", "hexahedron"):
         R.append({"recipe": {"b": "tp_mass_stiff", "cell": cell, "tpmesh": True, "p": {"degree": 2 if cell == "quadrilateral" else 1}}, "options": {"sum_factorization": True}})
